@@ -154,10 +154,39 @@ theorem ls_TOFFOLI : LocalSound cs!"TOFFOLI" :=
     match vals, hv with
     | [], _ => exact ⟨ps_ccx, TOFFOLIm, by decide, by decide, phase_of_shortcut shortcut_ccx expand_ccx, compactC_TOFFOLI 0⟩)
 
+theorem compactC_CSIGN (θ : ℝ) : compactC .CSIGN θ = some ⟨2, m2 (ctrl Zm)⟩ := by
+  show some (⟨2, toMatD 2 GateE.csign⟩ : Σ m : ℕ, Matrix (St m) (St m) ℂ) = _
+  rw [toMatD_csign]
+
+/-- `CZ` and `CSIGN` on a tree that writes them as `cz`: the `qelib1.inc` gate `cz` is the controlled-Z matrix -/
+theorem ls_late (n : Str) (g : GName) (hg : gnameOf n = g) (hc : compactX g [] = some ⟨2, m2 (ctrl Zm)⟩)
+    (hd : defOf n = none) (hs : shapeOf n = some (1, 1, 0))
+    (h : lookup Gen.gateNameToQasm n = some cs!"cz") : LocalSound n := by
+  have hq : qasmName n = cs!"cz" := by simp [qasmName, h]
+  have hl : localGates n = qelib1.reverse := by simp [localGates, hd]
+  refine localSound_mk2 n (d := ⟨cs!"cz", [], [cs!"a", cs!"b"],
+      [.call cs!"h" [] [cs!"b"], .call cs!"cx" [] [cs!"a", cs!"b"], .call cs!"h" [] [cs!"b"]]⟩) 1 1 0
+    (by rw [hl, hq]; decide) hs rfl rfl rfl (fun vals hv => ?_)
+  match vals, hv with
+  | [], _ =>
+    refine ⟨ps_cz, ctrl Zm, ?_, by decide, phase_of_shortcut shortcut_cz expand_cz, ?_⟩
+    · rw [hl, hq]; decide
+    · rw [hg]
+      exact hc
+
 /-- **the table**: every exportable gate other than `QASMU` -/
 theorem local_sound_table : ∀ e ∈ exportShape, e.1 ≠ cs!"QASMU" → LocalSound e.1 := by
   intro e he hne
-  simp only [exportShape, List.mem_cons, List.not_mem_nil, or_false] at he
+  rw [exportShape, List.mem_append] at he
+  rcases he with he | he
+  swap
+  · obtain ⟨hrow, hlk⟩ := mem_lateShape he
+    rcases hrow with rfl | rfl
+    · exact ls_late _ .CSIGN (by decide) (compactC_CSIGN 0) (by decide)
+        (by simp only [shapeOf]; rw [exportShape]; simp [List.find?_append, baseShape, he, lateShape, hlk] <;> decide) hlk
+    · exact ls_late _ .CZ (by decide) (compactC_CZ 0) (by decide)
+        (by simp only [shapeOf]; rw [exportShape]; simp [List.find?_append, baseShape, he, lateShape, hlk] <;> decide) hlk
+  simp only [baseShape, List.mem_cons, List.not_mem_nil, or_false] at he
   rcases he with rfl | rfl | rfl | rfl | rfl | rfl | rfl | rfl | rfl | rfl | rfl | rfl | rfl | rfl | rfl | rfl | rfl | rfl | rfl
   · exact absurd rfl hne
   · exact ls_RX
